@@ -1247,3 +1247,51 @@ def r_fallback_step(A, ctx, scope, rule="R-FALLBACK"):
                         "positive=True: on a zero-curvature coordinate (fallback step) a negative warm-started "
                         "coefficient is returned as is", loc=loc(px, px.node))
     ctx.floor(rule, n, scope.get("floor", 9))
+
+
+def r_nonneg_prox(A, ctx, scope, rule="R-NONNEG-PROX"):
+    ctx.rule(rule, "sign constraint over the whole parameter range: with positive=True the lifted prox_1d of "
+             "every separable penalty returns a non-negative, finite value on a grid of inputs of both signs "
+             "and several magnitudes, for steps below and above the non-convexity parameter and for feature "
+             "weights below and above gamma / step (where a piecewise formula can change sign in its "
+             "middle branch) - every epoch of every solver returns what the prox returned")
+    n = 0
+    grid_x = (-30.0, -9.0, -2.0, -0.5, 0.5, 2.0, 4.5, 9.0, 14.0, 30.0)
+    for cls in A.prog.penalties:
+        px = cls.find_method("prox_1d")
+        if px is None or px.cls.name == "BasePenalty" or "positive" not in A.prog.init_params(cls):
+            continue
+        model = ScalarModel(A, cls, {"positive": True})
+        try:
+            obj = model.self_obj()
+        except Unsupported:
+            continue
+        has_w = any(name == "weights" for name, _ in (A.prog.spec_of(cls) or []))
+        for wv in ((2.0 / 3.0, 5.0) if has_w else (2.0 / 3.0,)):
+            for sv in (0.25, 1.0, 2.5):
+                bad, und, cnt = None, None, 0
+                for xv in grid_x:
+                    try:
+                        L, rg = model.lifter({"x": xv, "s": sv, "wt": wv})
+                        un = rg.num(R(L.call_function(px, [sym("x"), sym("s"), 1], self_obj=obj)))
+                    except Raised as e:
+                        bad = bad or (xv, f"raises {e}")
+                        cnt += 1
+                        continue
+                    except (Unsupported, ZeroDivisionError) as e:
+                        und = str(e)
+                        continue
+                    cnt += 1
+                    if not (un >= -1e-300) or un != un or abs(un) == float("inf"):
+                        bad = bad or (xv, f"= {un:.4g}")
+                if cnt == 0:
+                    ctx.note(f"{rule}: {model.tag} step {sv} weight {wv:.3g}: not lifted ({und})")
+                    continue
+                n += 1
+                ctx.ob(rule, f"{cls.fq}::prox_1d::{model.tag}::step={sv:g},weight={wv:.3g}", bad is None,
+                       detail=f"{cnt} inputs",
+                       what=(f"{model.tag}: prox_1d(x={bad[0]:g}, step={sv:g}) with weight {wv:.3g}, alpha=1, "
+                             f"gamma=3 {bad[1]} although positive=True: a coordinate update returns an "
+                             f"infeasible (negative / non-finite) coefficient at this stopping point") if bad else "",
+                       loc=loc(px, px.node))
+    ctx.floor(rule, n, scope.get("floor", 15))
